@@ -267,7 +267,7 @@ class Layout:
 
 def context(dirs, plugins, readonly=(), **kw):
     storage = [strax.DataDirectory(p, readonly=(i in readonly)) for i, p in enumerate(dirs)]
-    return strax.Context(storage=storage, register=plugins, allow_multiprocess=False, timeout=60, **kw)
+    return strax.Context(storage=storage, register=plugins, allow_multiprocess=False, timeout=300, **kw)
 
 
 def make(ctx, L, target, d, clause="setup.make_raised", **kw):
@@ -664,7 +664,7 @@ def _run_rechunker(d, lay, root):
         tgt_mb = None if op["tgt"] is None else (op["tgt"] + 0.5) * itemsize / 1e6
         must("rechunker.raised", d, strax.rechunker, src_path, dest_directory=dest_arg, replace=replace,
              compressor=op["comp"], target_size_mb=tgt_mb, rechunk=op["rechunk"], progress_bar=True,
-             parallel=op["parallel"], max_workers=op["workers"], _timeout=120)
+             parallel=op["parallel"], max_workers=op["workers"], _timeout=300)
     want_comp = op["comp"] or src_meta["compressor"]
     if replace:
         # the old files are gone (read_dir: the directory holds exactly the files the new metadata names, and they
